@@ -23,6 +23,23 @@ CHECKS = {
               "MockProver on every run)."),
         technique="TLA+/TLC model checking of FiatShamir + trace validation of recorded prover/verifier transcripts",
     ),
+    "C03": dict(
+        category="fault_enumeration",
+        text=("FiatShamir is model-checked with one adversarial edit between proving and verifying (any proof "
+              "element forged or made undecodable, truncation, extension, every public-input edit including moving a "
+              "value between adjacent columns, committed-instance and key replacement): no edit is accepted, and the "
+              "reasons (every element absorbed before a later challenge, lengths and key absorbed) are invariants. "
+              "Against the code: honest proofs of TLC-chosen shapes are produced by the real prover and the complete "
+              "tamper plan the specification derives from the RECORDED proof layout (every element x other valid "
+              "value / invalid or non-canonical encoding / sign flip, truncation at and inside every element, "
+              "appended bytes, all public-input edits, committed instances, wrong key / k / hash, thorough: every "
+              "single-bit flip) is run against the real verifier; the trace spec demands the model's verdict for "
+              "each and the completeness of the plan."),
+        design_ref="DESIGN.md 4/C03",
+        note=("Single edits only (the property's quantifier); soundness up to negligible probability; "
+              "proof_same/stmt_same/key_same facts are harness byte comparisons; panics count as violations."),
+        technique="TLA+/TLC model checking of FiatShamir with an adversary + spec-derived fault enumeration validated as traces",
+    ),
 }
 
 NOT_YET = {
